@@ -15,7 +15,7 @@ REPO = os.environ.get('NFS_REPO', '/repo')
 VERIF = '/verif'
 ENV = dict(os.environ, GOFLAGS='-mod=mod', GOPROXY='off', GOSUMDB='off', GOTOOLCHAIN='local')
 ENV.pop('GOWORK', None)
-CHECKS = ['C01','C02','C03','C04','C05','C06','C07','C08','C09','C10','C11','C12','C14','C16','C17','C18','C19','C20']
+CHECKS = os.environ.get('MUT_CHECKS','C01 C02 C03 C04 C05 C06 C07 C08 C09 C10 C11 C12 C14 C16 C17 C18 C19 C20').split()
 
 REL = [('<=','<'),('>=','>'),('<','<='),('>','>='),('==','!='),('!=','==')]
 
@@ -128,14 +128,14 @@ def main():
     for k in range(jobs): prepare_copy(k)
     only = None
     if os.environ.get('MUT_ONLY'):
-        only = set(tuple(x) for x in json.load(open(os.environ['MUT_ONLY'])))
+        only = set(tuple(x[:3]) for x in json.load(open(os.environ['MUT_ONLY'])))
     tasks = []
     for rel in files:
         orig = open(os.path.join(REPO, rel)).read()
         ms = list(mutants(orig))
         if limit: ms = ms[:limit]
         for line, desc, new in ms:
-            if new != orig and (only is None or (rel, line, desc, new.split('\n')[line-1].strip()) in only): tasks.append((rel, line, desc, new, orig))
+            if new != orig and (only is None or (rel, line, desc) in only): tasks.append((rel, line, desc, new, orig))
     print(len(tasks), 'mutants', file=sys.stderr)
     # a copy is used by one worker at a time
     import queue, threading
